@@ -18,7 +18,7 @@ SYS_INVS = ['TypeOK', 'InOrderOnce', 'NoLoss', 'NoSpontaneousEnd', 'BothSeeDisco
 
 def sys_consts(mode, **kw):
     c = dict(MaxMsg=2, MaxPing=1, CBatch=2, SLimit=2, SBatch=2, CLimit=2, Mode='"%s"' % mode,
-             CountPings='TRUE', AllowDisc='{"client", "server"}')
+             CountPings='TRUE', Flush='TRUE', AllowDisc='{"client", "server"}')
     c.update(kw)
     return c
 
@@ -26,7 +26,8 @@ def sys_consts(mode, **kw):
 def trace_consts(mode):
     # the code's numbers: 16 packets per POST / per poll response, decoders accept 16
     return dict(MaxMsg=100000, MaxPing=0, CBatch=16, SLimit=16, SBatch=16, CLimit=16,
-                Mode='"%s"' % mode, CountPings='FALSE', AllowDisc='{"client", "server"}')
+                Mode='"%s"' % mode, CountPings='FALSE', Flush='TRUE',
+                AllowDisc='{"client", "server"}')
 
 
 def system_models(ck, th):
@@ -52,6 +53,11 @@ def system_models(ck, th):
     jobs.append(dict(name='negative control: server poll batch (3) above the client decoder limit (2)',
                      spec='Spec', consts=sys_consts('polling', MaxMsg=3, SBatch=3, AllowDisc='{}'),
                      invariants=SYS_INVS, constraints=['Bound'], expect='NoSpontaneousEnd'))
+
+    jobs.append(dict(name='negative control: disconnect() while a POST is in flight drops the queued '
+                          'CLOSE (defect F25 at design level): the server never sees a disconnect',
+                     spec='Spec', consts=sys_consts('polling', Flush='FALSE'),
+                     invariants=SYS_INVS, constraints=['Bound'], expect='BothSeeDisconnect'))
 
     def one(j):
         cfg = tlc.cfg_text(spec=j['spec'], constants=j['consts'],
